@@ -171,7 +171,8 @@ pub fn eval(n: &Node, at: i64) -> R {
                     if y == 0 {
                         RV::MustErr("division by zero")
                     } else if x == MIN && y == -1 {
-                        RV::Unspec("U3: MIN / -1")
+                        // 2^63 does not fit: C06 "never returns a wrapped or otherwise fabricated value", and every Ok value would be one
+                        RV::MustErr("MIN / -1 = 2^63 does not fit i64")
                     } else {
                         fit(x / y, q)
                     }
